@@ -24,8 +24,18 @@ theorem lastIsOpD_false {l : List Word} (h : Run.NoOpD l) : lastIsOpD l = false 
     simp [Run.isOpD] at hd
     exact absurd hd this
 
-theorem featuresOf_stack : featuresOf (.given Features.stackWord) = .ok true := rfl
-theorem featuresOf_absent : featuresOf .absent = .ok false := rfl
+theorem featuresOf_stack : featuresOf2 .absent (.given Features.stackWord) = .ok true := rfl
+theorem featuresOf_absent : featuresOf2 .absent .absent = .ok false := rfl
+
+/-- Before or after the subcommand: the same flag (or the same refusal). -/
+theorem featuresOf2_comm (v : List Char) :
+    (featuresOf2 (.given v) .absent = featuresOf2 .absent (.given v)) := by
+  unfold featuresOf2
+  have h : featuresOf .absent = .ok false := rfl
+  rw [h]
+  cases featuresOf (.given v) with
+  | error e => rfl
+  | ok b => simp
 
 theorem runAssembled_eq (so mi : Bool) (fuel : Nat) (name : List Char) (orig : Option Word)
     (words : List Word) (inp : List Nat) (m : Machine)
